@@ -24,7 +24,7 @@ type C03Obs struct {
 	Pid          int       `json:"pid"`
 	Died         bool      `json:"died"` // the plugin process was seen dead (gone / zombie)
 	DiedMs       int64     `json:"diedMs"`
-	ExitedTrue   bool      `json:"exitedTrue"`   // Exited() became true within H after the death
+	ExitedTrue   bool      `json:"exitedTrue"` // Exited() became true within H after the death
 	ExitedMs     int64     `json:"exitedMs"`
 	CtxCancelled bool      `json:"ctxCancelled"` // gRPC: the context handed to GRPCClient was cancelled within H
 	HaveCtx      bool      `json:"haveCtx"`
